@@ -44,7 +44,14 @@ def _die_with_parent():
         pass
 
 
-if __name__ == "__main__":
+ZYGOTE_SOCKET = None
+if __name__ == "__main__" and len(sys.argv) >= 3 and sys.argv[1] == "--zygote":
+    # zygote mode (see the end of this file): frames travel over a unix socket per forked node;
+    # stdout/stderr of this process are already a log file
+    ZYGOTE_SOCKET = sys.argv[2]
+    FIN = FOUT = None
+    _die_with_parent()
+elif __name__ == "__main__":
     FIN, FOUT = _takeover_stdio()
     _die_with_parent()
 else:  # imported (debugging, tests of the recipe interpreter): no frames, no stdio games
@@ -698,7 +705,7 @@ def _behaviour_safe(v):
 
 
 def behaviour_equal(a, b, what: str) -> dict:
-    """unitary / kraus of `a` equal those of `b` bit for bit."""
+    """unitary / kraus of `a` equal those of `b` entry for entry, exactly."""
     out = {"applies": False, "same": True, "kind": None, "where": None}
     for x, y in _elements(a, b):
         ra = _behaviour_safe(x)
@@ -708,19 +715,40 @@ def behaviour_equal(a, b, what: str) -> dict:
         if ra is not None and rb is not None and ra[0] == "raised" and rb[0] == "raised" and ra[1] == rb[1]:
             continue  # neither value has this behaviour; nothing to compare
         out["applies"] = True
+        # exact numerical equality of every matrix entry (no tolerance).  The dtype is not part of the
+        # behaviour: a stored document may hold `1` where the constructor call in the paired .repr holds
+        # `1.0`, and -0.0 == 0.0.
         ok = (ra is not None and rb is not None and ra[0] == rb[0] and len(ra[1]) == len(rb[1]) and all(
-            p.shape == q.shape and p.dtype == q.dtype and p.tobytes() == q.tobytes()
-            for p, q in zip(ra[1], rb[1])))
-        if not ok:
-            # -0.0 vs 0.0 differ in bytes but not in value; the property speaks of equal behaviour
-            ok = (ra is not None and rb is not None and ra[0] == rb[0] and len(ra[1]) == len(rb[1]) and all(
-                p.shape == q.shape and p.dtype == q.dtype and np.array_equal(p, q)
-                for p, q in zip(ra[1], rb[1])))
+            p.shape == q.shape and np.array_equal(p, q) for p, q in zip(ra[1], rb[1])))
         out["kind"] = (ra or rb)[0]
         if not ok and out["same"]:
             out["same"] = False
-            out["where"] = _tname(x)
+            out["where"] = _locate_behaviour(x, y)
     return out
+
+
+def _same_behaviour(x, y):
+    ra, rb = _behaviour_safe(x), _behaviour_safe(y)
+    if ra is None or rb is None or ra[0] == "raised" or rb[0] == "raised":
+        return None
+    return ra[0] == rb[0] and len(ra[1]) == len(rb[1]) and all(
+        p.shape == q.shape and np.array_equal(p, q) for p, q in zip(ra[1], rb[1]))
+
+
+def _locate_behaviour(a, b, depth=0) -> str:
+    """Innermost component (walking the _json_dict_ trees in parallel) whose unitary / kraus differs."""
+    kids = _children(a, b) if depth < 60 else None
+    stack = list(kids or [])
+    while stack:
+        _, x, y = stack.pop(0)
+        if _is_cirq_obj(x) and type(x) == type(y):  # noqa: E721
+            if _same_behaviour(x, y) is False:
+                return _locate_behaviour(x, y, depth + 1)
+        elif isinstance(x, (list, tuple, dict)):
+            sub = _children(x, y)
+            if sub:
+                stack.extend(sub)
+    return _tname(a)
 
 
 # ---------------------------------------------------------------------------------------------
@@ -917,11 +945,17 @@ def op_import(req):
     out = {"unsupported": False, "type": _tname(v), "verdict": compare(v, fresh, "import:" + t),
            "behaviour": None, "idempotent": None}
     if t in ("json", "gzip"):
-        # "equal behaviour" is promised for what JSON reads back (DESIGN: unitary/kraus bit for bit after JSON)
-        out["behaviour"] = behaviour_equal(v, fresh, "import:" + t)
         text = payload if t == "json" else gzip.decompress(payload)
         again = _sut("import:" + t + ":re-export", cirq.to_json, v).encode("utf-8")
         out["idempotent"] = (again == text)
+        # "Equal behaviour" is promised for what JSON reads back from the document written from the
+        # original.  The locally rebuilt value stands for the original only if it writes this very document:
+        # a value that came here through earlier hops may be ==-equal to its recipe and yet differ from it
+        # in something == does not look at (a repr that omits a parameter which equality ignores, an int
+        # where the recipe has a float) -- that is not something this JSON hop did.
+        fresh_text = _sut("import:" + t + ":reference-export", cirq.to_json, fresh).encode("utf-8")
+        if fresh_text == text:
+            out["behaviour"] = behaviour_equal(v, fresh, "import:" + t)
     return out
 
 
@@ -1051,14 +1085,21 @@ def serve():
     while True:
         try:
             head = _read_exact(4)
-        except EOFError:
+        except (EOFError, OSError):
             return
         (n,) = struct.unpack(">I", head)
         try:
             req = pickle.loads(_read_exact(n))
-        except EOFError:
+        except (EOFError, OSError):
             return
         if req.get("op") == "exit":
+            return
+        if req.get("op") == "zygote":
+            # this freshly forked, unused interpreter becomes the fork server of one worker process
+            data = pickle.dumps({"status": "ok", "pid": os.getpid()}, protocol=4)
+            FOUT.write(struct.pack(">I", len(data)) + data)
+            FOUT.flush()
+            zygote(req["path"], control=FIN)
             return
         try:
             resp = OPS[req["op"]](req)
@@ -1068,8 +1109,57 @@ def serve():
         except Exception as e:  # noqa: BLE001 - a defect of this file (or of a recipe): harness error
             resp = {"status": "error", "tb": "".join(traceback.format_exception(type(e), e, e.__traceback__))[-4000:]}
         data = pickle.dumps(resp, protocol=4)
-        FOUT.write(struct.pack(">I", len(data)) + data)
-        FOUT.flush()
+        try:
+            FOUT.write(struct.pack(">I", len(data)) + data)
+            FOUT.flush()
+        except OSError:
+            return
+
+
+def zygote(path: str, control=None) -> None:
+    """Fork server.  This interpreter -- started as `/venv/bin/python node_main.py --zygote <socket>` with the
+    PYTHONHASHSEED the coordinator chose -- has imported the five packages and done nothing else.  Every
+    connection to <socket> is answered by fork(): the child *is* a node (an interpreter with this hash seed
+    whose state is exactly "just imported Cirq"), serves frames on that connection and exits when it is
+    closed or when it is killed.  A node start therefore costs a fork (tens of ms) instead of a cold import
+    (3-5 s, 10+ s on a busy machine), which is what lets every run have nodes nobody used before.
+
+    Forks of one process are serial, and fourteen workers want several per run; so each worker asks the
+    per-seed zygote once for a fork that *itself* becomes a zygote (op "zygote": `control` is the worker's
+    connection; when it closes, this process exits) and takes its nodes from there."""
+    global FIN, FOUT
+    import select
+    import signal
+    import socket
+    signal.signal(signal.SIGCHLD, signal.SIG_IGN)      # children are reaped by the kernel
+    srv = socket.socket(socket.AF_UNIX, socket.SOCK_STREAM)
+    srv.bind(path)
+    srv.listen(128)
+    while True:
+        if control is not None:
+            try:
+                r, _, _ = select.select([srv, control], [], [])
+            except InterruptedError:
+                continue
+            if control in r:
+                os._exit(0)                             # the worker is gone (or said anything at all)
+        try:
+            conn, _ = srv.accept()
+        except InterruptedError:
+            continue
+        pid = os.fork()
+        if pid == 0:
+            try:
+                srv.close()
+                if control is not None:
+                    control.close()
+                _die_with_parent()                      # a node does not outlive its zygote
+                FIN = conn.makefile("rb")
+                FOUT = conn.makefile("wb")
+                serve()
+            finally:
+                os._exit(0)
+        conn.close()
 
 
 if __name__ == "__main__":
@@ -1077,4 +1167,7 @@ if __name__ == "__main__":
     # so that the gc.collect() of every `reset` only has to look at what runs created
     gc.collect()
     gc.freeze()
-    serve()
+    if ZYGOTE_SOCKET is not None:
+        zygote(ZYGOTE_SOCKET)
+    else:
+        serve()
